@@ -29,8 +29,8 @@ LEVEL_NOTE = (
 TECHNIQUE = "Lean 4 proof by functional induction over a hand model + differential correspondence with the Python class"
 RULE = (
     "sets: every subset of U={-3..3} (128), each written as a shuffled list of possibly overlapping/adjacent/nested/duplicated/empty input "
-    "ranges (ints for some singletons); every ordered pair of subsets (16384, thorough: 2 independent spellings each; quick: 4096 sampled "
-    "pairs); every list of <=3 ranges with endpoints in a 5-value (quick) / 7-value (thorough) window through the constructor; random lists "
+    "ranges (ints for some singletons); every ordered pair of subsets (16384, thorough: 2 independent spellings each; quick: 3000 sampled "
+    "pairs); every list of <=3 ranges with endpoints in a 7-value window through the constructor (quick: <=2 ranges over 7 values, <=3 over 4 values); random lists "
     "of 0..10 ranges with endpoints up to +-2^70 that share/abut endpoints; fixed corpus of boundary cases. Operations: constructor, "
     "| & - ^, ==, hash, contains, bisect index, iteration, cardinality/len, empty/bool. distinct = distinct request line; non-trivial = an "
     "operand whose spelling differs from its canonical form, or a result with >= 2 ranges")
@@ -130,25 +130,51 @@ class Timeout(Exception):
     pass
 
 
+ARMED = [False]
+INSTALLED = [False]
+TIMEOUTS = {}
+
+
 def _alarm(_sig, _frm):
-    raise Timeout()
+    if ARMED[0]:
+        ARMED[0] = False
+        raise Timeout()
+
+
+def _site(f):
+    g = getattr(f, "__func__", f)
+    c = getattr(g, "__code__", None)
+    return (c.co_filename.rsplit("/", 1)[-1], c.co_name, c.co_firstlineno) if c else getattr(f, "__name__", "?")
 
 
 def guarded(f, *a):
-    """('ok', value) | ('err', ExceptionName); a call that does not return within 0.3 s (retry: 1 s) -> Timeout"""
-    for budget in (0.3, 1.0):
-        old = signal.signal(signal.SIGALRM, _alarm)
-        signal.setitimer(signal.ITIMER_REAL, budget)
-        try:
-            return ("ok", f(*a))
-        except Timeout:
-            continue
-        except Exception as e:  # noqa
-            return ("err", type(e).__name__)
-        finally:
-            signal.setitimer(signal.ITIMER_REAL, 0)
-            signal.signal(signal.SIGALRM, old)
-    return ("err", "Timeout")
+    """('ok', value) | ('err', ExceptionName) | ('err', 'Timeout') when the call uses more than 0.3 s of CPU time
+    (retried once with 1 s; process CPU time, so machine load cannot cause a false timeout).  A call site that has timed out 20 times is not called any more
+    (('skip', None)): a change that makes a loop spin forever must not stall the check for hours."""
+    key = _site(f)
+    if TIMEOUTS.get(key, 0) >= 20:
+        return ("skip", None)
+    if not INSTALLED[0]:
+        signal.signal(signal.SIGVTALRM, _alarm)
+        INSTALLED[0] = True
+    if True:
+        for budget in (0.3, 1.0) if TIMEOUTS.get(key, 0) < 3 else (0.1,):
+            try:
+                signal.setitimer(signal.ITIMER_VIRTUAL, budget)
+                ARMED[0] = True
+                v = f(*a)
+                ARMED[0] = False
+                return ("ok", v)
+            except Timeout:
+                continue
+            except Exception as e:  # noqa
+                ARMED[0] = False
+                return ("err", type(e).__name__)
+            finally:
+                ARMED[0] = False
+                signal.setitimer(signal.ITIMER_VIRTUAL, 0)
+        TIMEOUTS[key] = TIMEOUTS.get(key, 0) + 1
+        return ("err", "Timeout")
 
 
 def fmt(raw):
@@ -260,14 +286,29 @@ class Run:
         self.site.append(site)
         return len(self.reqs) - 1
 
-    # -- judging a real result against the independent expectation -------------------------------
-    def judge(self, site, case, res, exp, raws):
-        ctx = self.ctx
-        ctx.count("eval_" + site)
-        if res[0] != "ok":
-            cls = "does-not-terminate" if res[1] == "Timeout" else "raises-" + res[1]
-            ctx.fail(f"{site}:{cls}", f"{site} {cls} on {case}", case)
+    def tie(self, site, req, r, f):
+        """correspondence request for a guarded result of the real class (nothing is asked for a skipped call)"""
+        if r[0] == "skip":
             return None
+        return self.ask(site, req, "ok " + f(r[1]) if r[0] == "ok" else "err " + r[1])
+
+    def errs(self, site, r, case):
+        """True when the guarded call produced a value; reports exceptions / non-termination as property failures"""
+        if r[0] == "ok":
+            return True
+        if r[0] == "skip":
+            self.ctx.count("skipped_after_timeouts")
+            return False
+        cls = "does-not-terminate" if r[1] == "Timeout" else "raises-" + r[1]
+        self.ctx.fail(f"{site}:{cls}", f"{site} {cls} on {case}", case)
+        return False
+
+    # -- judging a real result against the independent expectation -------------------------------
+    def judge(self, site, case, res, exp):
+        ctx = self.ctx
+        if not self.errs(site, res, case):
+            return None
+        ctx.count("eval_" + site)
         got = [tuple(r) for r in res[1].ranges]
         if got == exp:
             return got
@@ -306,8 +347,8 @@ class Run:
             if exp != runs(pyset(raw)):
                 raise common.BrokenCheck(f"sweep oracle disagrees with set() on {raw}")
         r = guarded(mkset, IS, raw)
-        i_mk = self.ask("constructor", "mk " + key, okranges(r))
-        got = self.judge("constructor", case, r, exp, [raw])
+        self.tie("constructor", "mk " + key, r, lambda s_: fmt(s_.ranges))
+        got = self.judge("constructor", case, r, exp)
         if exp != [tuple(x) for x in raw]:
             ctx.nontrivial("mk " + key)
         for x, y in zip(raw, raw[1:]):
@@ -324,50 +365,51 @@ class Run:
         # contains
         c = guarded(lambda: [int(bool(s.contains(v))) for v in pr])
         c2 = guarded(lambda: [int(v in s) for v in pr])
-        self.ask("contains", f"contains {key} {flat(pr)}", "ok " + flat(c[1]) if c[0] == "ok" else "err " + c[1])
-        ctx.count("eval_contains", len(pr))
+        self.tie("contains", f"contains {key} {flat(pr)}", c, flat)
         for cc, nm in ((c, "contains"), (c2, "__contains__")):
-            if cc[0] != "ok":
-                ctx.fail(f"{nm}:raises-{cc[1]}", f"{nm} raises {cc[1]} on {raw}", case)
-            elif cc[1] != expm:
-                w = next(v for v, x, y in zip(pr, cc[1], expm) if x != y)
-                cls = "false-positive" if not in_raw(raw, w) else "false-negative"
-                at = "range-start" if any(w == a for a, _ in got) else "range-end" if any(w == b for _, b in got) else "other"
-                ctx.fail(f"{nm}:{cls}-at-{at}", f"{nm}({w}) is {bool(1 - in_raw(raw, w))} on {got}", case, witness=w)
+            if self.errs(nm, cc, case):
+                ctx.count("eval_" + nm, len(pr))
+                if cc[1] != expm:
+                    w = next(v for v, x, y in zip(pr, cc[1], expm) if x != y)
+                    cls = "false-positive" if not in_raw(raw, w) else "false-negative"
+                    at = "range-start" if any(w == a for a, _ in got) else "range-end" if any(w == b for _, b in got) else "other"
+                    ctx.fail(f"{nm}:{cls}-at-{at}", f"{nm}({w}) is {not in_raw(raw, w)} on {got}", case, witness=w)
         b = guarded(lambda: [_bisect.bisect(s.ranges, (v,)) for v in pr])
-        self.ask("bisect", f"bisect {key} {flat(pr)}", "ok " + flat(b[1]) if b[0] == "ok" else "err " + b[1])
+        self.tie("bisect", f"bisect {key} {flat(pr)}", b, flat)
         # cardinality / len / empty / bool
         ecard = sum(b_ - a_ + 1 for a_, b_ in exp)
         k = guarded(s.cardinality)
-        self.ask("cardinality", "card " + key, f"ok {k[1]}" if k[0] == "ok" else "err " + k[1])
-        ctx.count("eval_cardinality")
-        if k != ("ok", ecard):
-            ctx.fail("cardinality:wrong", f"cardinality() = {k[1]} but the set has {ecard} members: {raw}", case)
+        self.tie("cardinality", "card " + key, k, str)
+        if self.errs("cardinality", k, case):
+            ctx.count("eval_cardinality")
+            if k[1] != ecard:
+                ctx.fail("cardinality:wrong", f"cardinality() = {k[1]} but the set has {ecard} members: {raw}", case)
         if ecard < (1 << 62):
             ln = guarded(len, s)
-            if ln != ("ok", ecard):
+            if self.errs("len", ln, case) and ln[1] != ecard:
                 ctx.fail("len:wrong", f"len() = {ln[1]} but the set has {ecard} members: {raw}", case)
         e = guarded(s.empty)
-        self.ask("empty", "empty " + key, f"ok {int(bool(e[1]))}" if e[0] == "ok" else "err " + e[1])
-        ctx.count("eval_empty")
-        if e != ("ok", not exp) or bool(s) != bool(exp):
-            ctx.fail("empty:wrong", f"empty() = {e[1]}, bool() = {bool(s)} for {got}", case)
+        self.tie("empty", "empty " + key, e, lambda v: str(int(bool(v))))
+        bl = guarded(bool, s)
+        if self.errs("empty", e, case) and self.errs("bool", bl, case):
+            ctx.count("eval_empty")
+            if bool(e[1]) != (not exp) or bl[1] != bool(exp):
+                ctx.fail("empty:wrong", f"empty() = {e[1]}, bool() = {bl[1]} for {got}", case)
         # iteration
         if ecard <= 400:
             it = guarded(lambda: list(s))
-            self.ask("iter", "iter " + key, "ok " + flat(it[1]) if it[0] == "ok" else "err " + it[1])
+            self.tie("iter", "iter " + key, it, flat)
             expi = [v for a_, b_ in exp for v in range(a_, b_ + 1)]
             if small and expi != sorted(pyset(raw)):
                 raise common.BrokenCheck("enumeration oracle disagrees with set()")
         else:
             it = guarded(lambda: list(itertools.islice(iter(s), 64)))
             expi = list(itertools.islice((v for a_, b_ in exp for v in range(a_, b_ + 1)), 64))
-        ctx.count("eval_iter")
-        if it[0] != "ok":
-            ctx.fail(f"iter:raises-{it[1]}", f"iteration raises {it[1]} on {raw}", case)
-        elif it[1] != expi:
-            cls = "not-ascending" if any(x >= y for x, y in zip(it[1], it[1][1:])) else "wrong-members"
-            ctx.fail(f"iter:{cls}", f"iteration gives {it[1][:20]} expected {expi[:20]}", case)
+        if self.errs("iter", it, case):
+            ctx.count("eval_iter")
+            if it[1] != expi:
+                cls = "not-ascending" if any(x >= y for x, y in zip(it[1], it[1][1:])) else "wrong-members"
+                ctx.fail(f"iter:{cls}", f"iteration gives {it[1][:20]} expected {expi[:20]}", case)
 
     # -- a pair of sets: | & - ^ == hash ------------------------------------------------------------
     def binary(self, ra, rb, small, lean_spec=False):
@@ -380,6 +422,7 @@ class Run:
         A, B = A[1], B[1]
         case = {"op": "binary", "a": ra, "b": rb}
         ka, kb = fmt(ra), fmt(rb)
+        ca, cb = sweep([ra], lambda v: in_raw(ra, v)), sweep([rb], lambda v: in_raw(rb, v))
         if small:
             for x in A.ranges:
                 for y in B.ranges:
@@ -394,44 +437,47 @@ class Run:
                     raise common.BrokenCheck(f"sweep oracle disagrees with set() on {op} {ra} {rb}")
             r = guarded(getattr(A, meth), B)
             req = f"{op} {ka} {kb}"
-            i = self.ask(meth, req, okranges(r))
-            got = self.judge(meth, dict(case, op=op), r, exp, [ra, rb])
+            self.tie(meth, req, r, lambda s_: fmt(s_.ranges))
+            got = self.judge(meth, dict(case, op=op), r, exp)
+            if got is None:
+                continue
             r2 = guarded({"|": lambda: A | B, "&": lambda: A & B, "-": lambda: A - B, "^": lambda: A ^ B}[sym])
-            if r[0] == "ok" and (r2[0] != "ok" or r2[1].ranges != r[1].ranges):
+            if r2[0] != "skip" and (r2[0] != "ok" or r2[1].ranges != r[1].ranges):
                 ctx.fail(f"{meth}:operator-differs", f"A {sym} B differs from A.{meth}(B)", dict(case, op=op))
-            if got is not None:
-                results[op] = (r[1], exp)
-                if len(exp) >= 2 or sweep([ra], lambda v: in_raw(ra, v)) != ra or sweep([rb], lambda v: in_raw(rb, v)) != rb:
-                    ctx.nontrivial(req)
-                self.post.append(("canon", self.ask("spec", "canon " + fmt(got), "ok 1"), None))
-                if lean_spec:
-                    pr = self.probes([ra, rb, got], small)
-                    want = [int(SEM[op](in_raw(ra, v), in_raw(rb, v))) for v in pr]
-                    # Lean Spec.memB of the REAL result at every breakpoint = the set operation
-                    self.post.append(("specmem", self.ask("spec", f"specmem {fmt(got)} {flat(pr)}", "ok " + flat(want)), (meth, dict(case, op=op))))
+            results[op] = (r[1], exp)
+            if len(exp) >= 2 or ca != ra or cb != rb:
+                ctx.nontrivial(req)
+            self.post.append(("canon", self.ask("spec", "canon " + fmt(got), "ok 1"), None))
+            if lean_spec:
+                pr = self.probes([ra, rb, got], small)
+                want = [int(SEM[op](in_raw(ra, v), in_raw(rb, v))) for v in pr]
+                # Lean Spec.memB of the REAL result at every breakpoint = the set operation
+                self.post.append(("specmem", self.ask("spec", f"specmem {fmt(got)} {flat(pr)}", "ok " + flat(want)), (meth, dict(case, op=op))))
         # equality: equal sets compare equal (and hash equal), different sets compare different
-        same = sweep([ra], lambda v: in_raw(ra, v)) == sweep([rb], lambda v: in_raw(rb, v))
-        e = guarded(lambda: A == B)
-        self.ask("eq", f"eq {ka} {kb}", f"ok {int(bool(e[1]))}" if e[0] == "ok" else "err " + e[1])
-        ctx.count("eval_eq")
-        if e != ("ok", same) or (A != B) == same:
-            ctx.fail("eq:equal-sets-compare-unequal" if same else "eq:different-sets-compare-equal",
-                     f"{A!r} == {B!r} gives {e[1]}", dict(case, op="eq"))
-        if same and hash(A) != hash(B):
-            ctx.fail("hash:equal-sets-hash-differently", f"hash({A!r}) != hash({B!r})", dict(case, op="eq"))
-        # algebraic consequences on real objects: results computed along different routes are the same object value
+        same = ca == cb
+        e = guarded(lambda: (A == B, A != B, hash(A) == hash(B)))
+        self.tie("eq", f"eq {ka} {kb}", e, lambda v: str(int(bool(v[0]))))
+        if self.errs("eq", e, dict(case, op="eq")):
+            ctx.count("eval_eq")
+            if bool(e[1][0]) != same or bool(e[1][1]) == same:
+                ctx.fail("eq:equal-sets-compare-unequal" if same else "eq:different-sets-compare-equal",
+                         f"{A.ranges} == {B.ranges} gives {e[1][0]}, != gives {e[1][1]}", dict(case, op="eq"))
+            if same and not e[1][2]:
+                ctx.fail("hash:equal-sets-hash-differently", f"hash differs for {A.ranges} and {B.ranges}", dict(case, op="eq"))
+        # consequences on real objects: results computed along different routes are the same object value
         if all(k in results for k in ("union", "inter", "diff", "sym")):
-            ctx.count("eval_identities")
             u, i_, d, x = (results[k][0] for k in ("union", "inter", "diff", "sym"))
-            alt = guarded(lambda: u - i_)
-            if alt[0] != "ok" or not (alt[1] == x) or hash(alt[1]) != hash(x):
-                ctx.fail("eq:same-set-different-object", f"(A|B)-(A&B) = {alt[1]!r} but A^B = {x!r}", dict(case, op="identity"))
-            alt = guarded(lambda: (d | i_))
-            if alt[0] != "ok" or not (alt[1] == A):
-                ctx.fail("eq:same-set-different-object", f"(A-B)|(A&B) = {alt[1]!r} but A = {A!r}", dict(case, op="identity"))
+            alt = guarded(lambda: ((u - i_) == x, hash(u - i_) == hash(x), (d | i_) == A))
+            if alt[0] != "skip":
+                ctx.count("eval_identities")
+                if alt[0] != "ok" or not all(alt[1]):
+                    ctx.fail("eq:same-set-different-object",
+                             f"(A|B)-(A&B) == A^B, same hash, (A-B)|(A&B) == A gives {alt[1]} for A={A.ranges} B={B.ranges}",
+                             dict(case, op="identity"))
 
 
 def check(ctx, extra_cases=()):
+    TIMEOUTS.clear()
     run = Run(ctx)
     rng = ctx.rng
     # 0. replayed cases and the fixed corpus first
@@ -441,12 +487,13 @@ def check(ctx, extra_cases=()):
         run.binary(rb, ra, small, lean_spec=True)
         ctx.count("corpus_pairs", 2)
     # 1. every list of <= 3 ranges over a small window through the constructor
-    win = list(range(-3, 4)) if ctx.thorough else list(range(-2, 3))
-    rs = [(a, b) for a in win for b in win]
+    #    (thorough: 7 values, 120 099 lists; quick: <= 2 ranges over 7 values and <= 3 ranges over 4 values)
     n0 = len(run.unary_seen)
-    for k in (1, 2, 3):
-        for raw in itertools.product(rs, repeat=k):
-            run.unary(list(raw), True)
+    for win, kmax in (((-3, 4), 3),) if ctx.thorough else (((-3, 4), 2), ((-1, 3), 3)):
+        rs = [(a, b) for a in range(*win) for b in range(*win)]
+        for k in range(1, kmax + 1):
+            for raw in itertools.product(rs, repeat=k):
+                run.unary(list(raw), True)
     ctx.extra_cov["constructor_lists_enumerated"] = len(run.unary_seen) - n0
     # 2. the 7-element universe: all subsets; pairs exhaustive (thorough) or sampled (quick)
     subsets = [[v for i, v in enumerate(U) if m >> i & 1] for m in range(1 << len(U))]
@@ -456,7 +503,7 @@ def check(ctx, extra_cases=()):
     if ctx.thorough:
         pairs = [(i, j) for i in range(128) for j in range(128)] * 2
     else:
-        pairs = [(rng.randrange(128), rng.randrange(128)) for _ in range(4096)]
+        pairs = [(rng.randrange(128), rng.randrange(128)) for _ in range(3000)]
     for n, (i, j) in enumerate(pairs):
         ra, rb = spell(rng, subsets[i], U[0], U[-1]), spell(rng, subsets[j], U[0], U[-1])
         run.binary(ra, rb, True, lean_spec=(n % 8 == 0))
@@ -467,7 +514,7 @@ def check(ctx, extra_cases=()):
     ctx.extra_cov["exhaustive"] = bool(ctx.thorough)
     ctx.extra_cov["exhaustive_what"] = ("all 16384 ordered pairs of subsets of a 7-element universe (2 random spellings each); all lists of <=3 ranges "
                                         "over 7 values through the constructor" if ctx.thorough else
-                                        "quick tier: 4096 sampled pairs; all lists of <=3 ranges over 5 values through the constructor")
+                                        "quick tier: 3000 sampled pairs; all lists of <=2 ranges over 7 values and <=3 ranges over 4 values through the constructor")
     # 3. big integers
     for n in range(6000 if ctx.thorough else 600):
         ra, rb = big_raw(rng), big_raw(rng)
